@@ -121,9 +121,47 @@ func ruleC18Index(cx *Ctx) {
 		if !isCallTo(in, incAt) {
 			return
 		}
-		a := callArgs(in)
-		tb := newInliningTermBuilder()
-		ipairs = append(ipairs, tb.of(a[0]).String()+" @ "+mk("<<", tb.of(a[1]), tConst(2)).String())
+		// the (slot, bit offset) the callee updates, with this call's arguments substituted for its parameters
+		cc := callCommon(in)
+		callee := newInliningTermBuilder()
+		for i, p := range origin(incAt).Params {
+			if i < len(cc.Args) {
+				callee.subst[p] = newInliningTermBuilder().of(cc.Args[i])
+			}
+		}
+		done := false
+		allInstrs(origin(incAt), func(x ssa.Instruction) {
+			st, ok := x.(*ssa.Store)
+			if !ok || done {
+				return
+			}
+			ia, isIA := st.Addr.(*ssa.IndexAddr)
+			if !isIA || !sameField(fieldOf(ia.X), tableF) {
+				return
+			}
+			plain := newInliningTermBuilder()
+			valT := plain.of(st.Val)
+			wordS := mk("index", mk("field:table", tVar("param0")), plain.of(ia.Index)).String()
+			if valT.Op == "+" && len(valT.Args) == 2 {
+				for i, a := range valT.Args {
+					if a.Op == "<<" && len(a.Args) == 2 && a.Args[0].isConst() && a.Args[0].C == 1 && valT.Args[1-i].String() == wordS {
+						// re-evaluate index and shift with the arguments substituted
+						var sh ssa.Value
+						if b, isB := st.Val.(*ssa.BinOp); isB {
+							for _, side := range []ssa.Value{b.X, b.Y} {
+								if shl, isShl := side.(*ssa.BinOp); isShl && shl.Op == token.SHL {
+									sh = shl.Y
+								}
+							}
+						}
+						if sh != nil {
+							ipairs = append(ipairs, callee.of(ia.Index).String()+" @ "+callee.of(sh).String())
+							done = true
+						}
+					}
+				}
+			}
+		})
 	})
 	sort.Strings(fpairs)
 	sort.Strings(ipairs)
@@ -136,8 +174,10 @@ func ruleC18Index(cx *Ctx) {
 	// incrementAt interprets its second argument as nibble index: shift = j << 2 (checked in C18.sat) and addresses table[i]
 	ok := false
 	allInstrs(incAt, func(in ssa.Instruction) {
-		if ia, isIA := in.(*ssa.IndexAddr); isIA && sameField(fieldOf(ia.X), tableF) && ia.Index == ssa.Value(bparam(incAt, 1)) {
-			ok = true
+		if ia, isIA := in.(*ssa.IndexAddr); isIA && sameField(fieldOf(ia.X), tableF) {
+			if _, isP := ia.Index.(*ssa.Parameter); isP {
+				ok = true
+			}
 		}
 	})
 	cx.R.Check(ok, rule, funcName(incAt), "slot operand", cx.P.Pos(incAt.Pos()), "incrementAt(i, j) addresses table[i]")
@@ -267,11 +307,24 @@ func ruleC18Sat(cx *Ctx) {
 		}
 		n++
 		tb := newInliningTermBuilder()
-		val := tb.of(st.Val).String()
-		shiftT := mk("<<", tVar("param2"), tConst(2))
-		wordT := mk("index", mk("field:table", tVar("param0")), tVar("param1"))
-		wantVal := mk("+", mk("<<", tConst(1), shiftT), wordT).String()
-		cx.R.Check(val == wantVal && ia.Index == ssa.Value(bparam(incAt, 1)), rule, name, "increment value", cx.P.where(st), "table[i] += 1 << (j<<2) (got "+val+")")
+		valT := tb.of(st.Val)
+		val := valT.String()
+		// table[i] += 1 << S for the counter's bit offset S - j<<2 computed here, or handed in by the caller (C18.index
+		// ties S, with the callers' arguments substituted, to the shift frequency reads the same counter with)
+		wordT := mk("index", mk("field:table", tVar("param0")), newInliningTermBuilder().of(ia.Index))
+		var shiftT *Term
+		if valT.Op == "+" && len(valT.Args) == 2 {
+			for i, a := range valT.Args {
+				if a.Op == "<<" && len(a.Args) == 2 && a.Args[0].isConst() && a.Args[0].C == 1 && valT.Args[1-i].String() == wordT.String() {
+					shiftT = a.Args[1]
+				}
+			}
+		}
+		_, idxIsParam := ia.Index.(*ssa.Parameter)
+		cx.R.Check(shiftT != nil && idxIsParam, rule, name, "increment value", cx.P.where(st), "table[i] += 1 << (bit offset of the counter) (got "+val+")")
+		if shiftT == nil {
+			shiftT = mk("<<", tVar("param2"), tConst(2))
+		}
 		guarded := false
 		for _, g := range guardsAt(st.Block()) {
 			b, ok := g.Cond.(*ssa.BinOp)
